@@ -252,7 +252,7 @@ def main(prop, modname, level="other", argv=None, extra_assumptions=(), trusted_
     jobs = mod.jobs(tier)
     if a.jobs:
         want = set(a.jobs.split(","))
-        jobs = [j for j in jobs if j.name in want]
+        jobs = [j for j in jobs if j.name in want or any(w2.endswith("*") and j.name.startswith(w2[:-1]) for w2 in want)]
     args = [(modname, j.name, tier, seed, a.budget) for j in jobs]
     results = []
     if a.j <= 1 or len(args) == 1:
